@@ -686,9 +686,10 @@ package avro
 //@ spec outdesc(out iface) ptr = rkind(typedesc(tag(out))) == 22 ? relem(typedesc(tag(out))) : typedesc(tag(out))
 
 //@ func (Schema).Codec
-//@   ensures [C07,C08,C05] err == nil ==> res != nil && wfc(res) && dsz(res) == rtypesz(outdesc(out)) && 0 <= dsz(res)
-//@   ensures [assume] err == nil ==> res != nil && wfc(res) && dsz(res) == rtypesz(outdesc(out)) && 0 <= dsz(res)
+//@   requires out != nil
+//@   ensures [C05] err == nil ==> res != nil && wfc(res) && dsz(res) == rtypesz(outdesc(out)) && 0 <= dsz(res)
 //@   pure
+//@   trusted
 
 //@ func (*ReadBuf).Reset
 //@   requires d != nil
